@@ -1,5 +1,6 @@
 import Darling.Driver.C04
 import Darling.Driver.C05
+import Darling.Driver.FM
 import Darling.Generated.Facts
 /-
   `darling_model`: reads `<prop> <case-id> <sexp>` lines on stdin, answers `<case-id> <answer>`.
@@ -19,6 +20,7 @@ def answer (p : Params) (prop : String) (c : Sexp) : String :=
   match prop with
   | "c04" => Driver.C04.answer p.thr c
   | "c05" => Driver.C05.answer c
+  | "fm" => Driver.FM.answer c
   | _ => "bad-prop"
 
 partial def loop (h : IO.FS.Stream) (out : IO.FS.Stream) (p : Params) : IO Unit := do
